@@ -77,6 +77,9 @@ pub struct Cfg {
 	/// `ServerConfig` it was made from keeps another value (50)
 	#[serde(default)]
 	pub limit_via_service_builder: bool,
+	/// string subscription ids contain characters that must be escaped in JSON
+	#[serde(default)]
+	pub id_escapes: bool,
 	/// likewise through `TowerServiceBuilder::set_rpc_middleware` (identity middleware) on the per-connection clone
 	#[serde(default)]
 	pub via_set_rpc_middleware: bool,
@@ -84,14 +87,14 @@ pub struct Cfg {
 
 impl Default for Cfg {
 	fn default() -> Self {
-		Cfg { max_request: 10 * 1024 * 1024, max_response: 10 * 1024 * 1024, max_connections: 100, max_subs: 1024, batch: BatchCfg::Unlimited, buffer_capacity: 1024, mode: 0, ping: None, ping_fine: None, entry: 0, via_set_http_middleware: false, limit_via_service_builder: false, via_set_rpc_middleware: false }
+		Cfg { max_request: 10 * 1024 * 1024, max_response: 10 * 1024 * 1024, max_connections: 100, max_subs: 1024, batch: BatchCfg::Unlimited, buffer_capacity: 1024, mode: 0, ping: None, ping_fine: None, entry: 0, via_set_http_middleware: false, limit_via_service_builder: false, id_escapes: false, via_set_rpc_middleware: false }
 	}
 }
 
 /// Subscription ids: a counter, unless the history has queued an id to hand out next (an id provider is free to
 /// give an id again once the subscription that had it is over, or on another connection)
 #[derive(Debug)]
-pub struct CounterIds(pub AtomicU64, pub bool, pub Arc<Mutex<std::collections::VecDeque<Value>>>);
+pub struct CounterIds(pub AtomicU64, pub bool, pub Arc<Mutex<std::collections::VecDeque<Value>>>, pub bool);
 impl IdProvider for CounterIds {
 	fn next_id(&self) -> SubscriptionId<'static> {
 		if let Some(v) = self.2.lock().pop_front() {
@@ -102,7 +105,12 @@ impl IdProvider for CounterIds {
 			}
 		}
 		let n = self.0.fetch_add(1, Ordering::SeqCst);
-		if self.1 { SubscriptionId::Str(format!("sub-{n}").into()) } else { SubscriptionId::Num(n) }
+		match (self.1, self.3) {
+			// (string ids that need escaping in JSON: quote, backslash, slash, a control character, non-ASCII)
+			(true, true) => SubscriptionId::Str(format!("s\"{n}\\/\u{1}\u{e9}").into()),
+			(true, false) => SubscriptionId::Str(format!("sub-{n}").into()),
+			_ => SubscriptionId::Num(n),
+		}
 	}
 }
 
@@ -593,7 +601,7 @@ pub fn server_config_with_ids(cfg: &Cfg, string_ids: bool, forced: Arc<Mutex<std
 		.max_connections(cfg.max_connections)
 		.max_subscriptions_per_connection(cfg.max_subs)
 		.set_message_buffer_capacity(cfg.buffer_capacity.max(1))
-		.set_id_provider(CounterIds(AtomicU64::new(1000), string_ids, forced))
+		.set_id_provider(CounterIds(AtomicU64::new(1000), string_ids, forced, cfg.id_escapes))
 		.set_batch_request_config(match cfg.batch {
 			BatchCfg::Disabled => BatchRequestConfig::Disabled,
 			BatchCfg::Limit(n) => BatchRequestConfig::Limit(n),
